@@ -28,6 +28,31 @@ CLAIMED = {
         text="For seeded block workloads on the real Store over pebble's crashable in-memory file system, a crash is injected before EVERY file-system operation (create/write/sync/rename/remove/...) between open and close, each with 0 %, partial and 100 % survival of unsynced data; every crash image is re-opened through the real open path and must show one previously committed height h' with state, historical state, commitment tree, block/tx/certificate/event/checkpoint indexes and commit id all at h' and equal to the model, nothing of later heights visible, and must accept the next block. Enumeration of crash points per workload is exhaustive when N <= 600 operations.",
         note="Crash model is pebble's MemFS CrashClone (4 KiB block granularity, no torn sub-block writes); durability of unsynced recent heights is not claimed (commits are NoSync by design); store-level workload (FSM-level execution is covered by C03/C11).",
         tech="fault-injection enumeration over generated workloads (seeded PRNG) with a reference model oracle; crash images saved as replay files"),
+    "C17": dict(
+        cat="fault_enumeration",
+        text="Two honest endpoints run the real handshake and encrypted connection over a harness-owned wire. Generated write/read chunkings must round-trip byte-exactly; for generated conversations EVERY data-frame position is attacked with every fault kind (bit flips in header/body/tag, drop, duplicate, swap, replay, truncation, reflection, garbage; single and double faults) and the reader must deliver exactly the plaintext in front of the fault and then fail; generated active-intermediary handshake transcripts (ephemeral-key substitution, identity claims, relayed/reflected/replayed signatures, hostile ephemeral keys, wrong network/chain) must never end with an endpoint accepting the other honest endpoint's identity on a leg whose keys the intermediary holds, and only with proof of possession for this session. Frame-fault enumeration is exhaustive per generated conversation; conversations and transcripts are sampled.",
+        note="Cryptographic primitives (ChaCha20-Poly1305, X25519, HKDF, signatures) are trusted; forgeries are not attempted; ephemeral keys of honest endpoints come from crypto/rand inside NewHandshake; wall-clock deadlines are not exercised.",
+        tech="fault-injection enumeration over generated conversations + " + PBT + "round-trip oracle and man-in-the-middle invariant over generated handshake transcripts"),
+    "C18": dict(
+        cat="exploration",
+        text="Real p2p nodes joined over in-memory connections: generated sets of concurrent senders over all topics with sizes around the packet boundary must arrive as the same multiset of (topic, hash, authenticated sender) or not at all; a raw attacker peer (honest handshake, then unknown streams, non-packet payloads, garbage, oversize prefixes/packets, EOF-less interleavings, over-limit accumulation) must lose its connection with nothing partial delivered; the same concurrent scenarios run under the race detector with small payloads. Held on the explored executions.",
+        note="Goroutine schedules of the real send/receive services are sampled, not controlled; data-race freedom only means 'detector silent on explored executions'; cases whose teardown the node's own log attributes to a wall-clock limit are counted inconclusive, never as violations.",
+        tech=PBT + "multiset delivery oracle under generated concurrency, adversarial raw-peer traffic, go race detector on generated schedules"),
+    "C19": dict(
+        cat="exploration",
+        text="(a) For every signed digest / identity hash a structured generator fills every field and derives single-field mutants: different encodings must give different digests unless the field is on a declared, justified outside-list, and for consensus messages a receiver differential on real BFT replicas / the real state machine decides whether an unsigned field changes what an authenticated sender made the receiver do; (b) all 53 store key builders are checked for injectivity, cross-builder collisions and prefix-range containment over hostile component tuples admitted by the callers; (c) structured mutation, an exhaustive hostile-length sweep and (thorough) native fuzzing drive the decoders and the handlers behind them (CheckBasic, CheckTx + proposer-mode ApplyBlock, certificate check, BFT.HandleMessage): no panic, no ErrPanic, unknown fields rejected where claimed, state unchanged on rejection.",
+        note="Hash functions and signature schemes assumed secure (injectivity is structural); controller.HandlePeerBlock and the p2p receive loop are covered by C02/C11/C18, not here; 'meaning differs' for unsigned fields is decided by observable receiver behaviour in the harness' mock controller.",
+        tech=PBT + "single-field mutation + receiver differential, key-space injectivity, structure-aware decoder fuzzing; native go fuzz targets in the thorough tier"),
+    "C20": dict(
+        cat="exploration",
+        text="Generated order-book histories (create/edit/delete, lock/reset/close instructions incl. duplicates and conflicts, via own certificates and really signed certificate-results transactions) and generated two-chain AMM histories (limit orders, deposits, withdrawals, batch rotation, delayed/dropped certificates, reserves from 1 to near 2^64, liveness fallback) on the real state machine are checked after every block, from raw state scans in big integers: escrow pool = open orders, holding pool = pending DEX operations, points sum = total, swap output formula / reserve product / payout bounds, per-order execute-once/settle-once ledger, mirrored pool sizes, supply identity. Held on everything explored.",
+        note="The two-chain glue (h/chainsim/dex.go) restates controller.HandleDex / certificate-results sending instead of running the controller; two open known findings in the liveness-fallback path are excluded by construction (counted in evidence) and printed as KNOWN-FINDING.",
+        tech=PBT + "stateful history generation with a big-integer reference ledger and model-independent conservation invariants"),
+    "C14": dict(
+        cat="exploration",
+        text="(a) From the signatures that correct replicas really produced in generated consensus runs (each correct key signs at most one payload per view - asserted) plus anything Byzantine keys sign, an adversary assembles double-sign evidence (re-paired, cross-view, partial, duplicated, unsigned-bit, expired ...) and slash lists: everyone the real evidence code implicates must, by the simulator's ground truth, have signed two payloads in that view; (b) generated chains with double-signer lists repeated across blocks/committees/protocol versions: per (validator, height) at most one stake reduction, per-block per-committee cap respected, rejected lists change nothing. Held on everything explored.",
+        note="(a) trusts BLS unforgeability and uses a fixed committee per root height; (b) evidence expiry is enforced by the BFT evidence code (part a), not by the state machine.",
+        tech=PBT + "adversarial evidence assembly against simulator ground truth; stateful history generation with a reference slashing model"),
 }
 
 REASONS = {}  # property id -> reason when not claimed (default below)
